@@ -62,8 +62,9 @@ class C15(Prop):
                 "extra": st.sampled_from([None, None, ["end", 0], ["end", 0], ["end", -0.5], ["at", 0], ["at", 1], ["at", 2.5]]),
                 # a store with real I/O suspends inside its calls: generated numbers of event-loop yields before each store call
                 "yields": st.sampled_from([[], [], [1], [0, 2], [2, 0, 1], [1, 3], [3, 1, 0, 2], [5, 0]]),
-                # the pause before a failed store write is retried: none (fast), or half a virtual second (a run can end meanwhile)
-                "backoff": st.sampled_from([0.0, 0.5]),
+                # the pause before a failed store write is retried: none (fast), half a virtual second (a run can end meanwhile), or three
+                # seconds (two retries then outlast the 5 s a cancellation waits for the run before it kills its task)
+                "backoff": st.sampled_from([0.0, 0.0, 0.5, 0.5, 3.0]),
             }
         )
 
@@ -224,6 +225,12 @@ class C15(Prop):
         for n, info in enumerate(obs["runs"]):
             end = info["end"]
             attrs = dict(end=end, injected_write_failures=inj > 0, second_run=n > 0, store=case["store"])
+            # WorkflowHandler.cancel_run() waits 5 s for the run and then cancels its task; the task is the control loop, and the
+            # 'cancelled' status write (with its retry pauses) runs inside it
+            grace_cut = bool(
+                end == "cancel" and info.get("truth") == "task_cancelled" and inj > 0 and 2 * (case.get("backoff") or 0.0) >= 5.0
+                and info.get("ended_at") is not None and info.get("cancel_at") is not None and abs(info["ended_at"] - info["cancel_at"] - 5.0) < 0.01
+            )
             if info.get("start_error"):
                 # the initial handler row could not be written within the backoff budget: the run was never started; nothing to reflect
                 r.classes.append("start_rejected")
@@ -235,7 +242,9 @@ class C15(Prop):
                 r.v("run_did_not_end", truth=truth, **attrs)
                 continue
             if status == "running" or status is None:
-                r.v("handler_still_running_after_run_ended", truth=truth, **attrs)
+                r.v("handler_still_running_after_run_ended", truth=truth, status_write_retry_cut_by_cancel_grace=grace_cut, **attrs)
+                if grace_cut:
+                    r.classes.append("cancel_grace_expired_during_write_retry")
                 continue
             want = {"result": "completed", "WorkflowCancelledByUser": "cancelled"}.get(truth, "failed")
             if truth == "task_cancelled":
@@ -264,6 +273,8 @@ class C15(Prop):
             r.classes.append("failure_with_empty_message")
         if case.get("backoff") and inj:
             r.classes.append("write_retried_after_a_pause")
+        if (case.get("backoff") or 0) >= 3 and inj:
+            r.classes.append("write_retried_after_a_long_pause")
         if any("extra_sent_at" in i for i in obs["runs"]):
             r.classes.append("extra_event_accepted")
             if any("extra_sent_at" in i and i.get("ended_at") is not None and abs(i["extra_sent_at"] - i["ended_at"]) < 1e-6 for i in obs["runs"]):
